@@ -172,6 +172,9 @@ def run(chk, replay=None):
                     data[c, b] = 10 ** rng.uniform(-8, 1.5)
         if data.sum() == 0:
             data[0, 0] = 1.0
+        if kind == 'L' and (t // 4) % 2 == 1:
+            # a forecast expecting about one event: the L-test then also simulates empty catalogs (statistic -N_fore)
+            data = data * (rng.choice([0.7, 1.3]) / data.sum())
         ids = {}
         rid = [[0] * nb for _ in range(nc)]
         for c in range(nc):
@@ -189,7 +192,7 @@ def run(chk, replay=None):
             w[c][b] += 1
         fc = B.forecast(data, layout=['C', 'F', 'T'][(t // 4) % 3])
         cat = B.catalog(w, nc, nb, rng)
-        nsim = 3
+        nsim = 3 if kind != 'L' else 12
         sims = []
         rn = None
         if kind != 'L':
@@ -221,6 +224,11 @@ def run(chk, replay=None):
                 res = call_test(pe, kind, fc, cat, nsim, rn, seed=chk.seed + t)
             for (_n, tgt, _w, _d, out) in cap.calls:
                 a = numpy.asarray(out).reshape(nc, nb)
+                if int(a.sum()) != int(tgt):
+                    chk.violation('trace:L:simulated catalog does not hold the drawn number of events',
+                                  {'shape': [nc, nb], 'drawn': int(tgt), 'events_in_catalog': int(a.sum()), 'total_rate': float(data.sum())})
+                if int(tgt) == 0:
+                    chk.nontrivial('L-empty-simulation|%d' % t)
                 sims.append([[int(a[c, b]) for b in range(nb)] for c in range(nc)])
         else:
             res = call_test(pe, kind, fc, cat, nsim, rn, seed=chk.seed + t)
